@@ -1,3 +1,7 @@
+-- always "fixed message" on an interpreter of its own; a global carried over from an earlier block (an interpreter shared by
+-- several blocks, a script loaded once for several blocks) changes the answer
 function validate(ctx, content)
+  if seen_before then return "stale interpreter state: validate() has run before in this interpreter" end
+  seen_before = true
   return "fixed message"
 end
